@@ -304,20 +304,12 @@ func (m *PlaintextMetaData) UnmarshalJSON(p []byte) (err error) {
 
 	m.Scale = aux.Scale
 
-	if y, err := hexconv(aux.IsBatched); err != nil {
+	if m.IsBatched, err = hexflag(aux.IsBatched); err != nil {
 		return err
-	} else if y == 1 {
-		m.IsBatched = true
-	} else {
-		m.IsBatched = false
 	}
 
-	if y, err := hexconv(aux.IsBitReversed); err != nil {
+	if m.IsBitReversed, err = hexflag(aux.IsBitReversed); err != nil {
 		return err
-	} else if y == 1 {
-		m.IsBitReversed = true
-	} else {
-		m.IsBitReversed = false
 	}
 
 	logRows, err := hexconv(aux.LogDimensions[0])
@@ -444,16 +436,12 @@ func (m *CiphertextMetaData) UnmarshalJSON(p []byte) (err error) {
 		return
 	}
 
-	if y, err := hexconv(aux.IsNTT); err != nil {
+	if m.IsNTT, err = hexflag(aux.IsNTT); err != nil {
 		return err
-	} else {
-		m.IsNTT = y == 1
 	}
 
-	if y, err := hexconv(aux.IsMontgomery); err != nil {
+	if m.IsMontgomery, err = hexflag(aux.IsMontgomery); err != nil {
 		return err
-	} else {
-		m.IsMontgomery = y == 1
 	}
 
 	return
@@ -463,6 +451,19 @@ func (m *CiphertextMetaData) UnmarshalJSON(p []byte) (err error) {
 // [CiphertextMetaData.MarshalBinary] or [CiphertextMetaData.WriteTo] on the object.
 func (m *CiphertextMetaData) UnmarshalBinary(p []byte) (err error) {
 	return m.UnmarshalJSON(p)
+}
+
+// hexflag decodes a flag, written as 0 or 1: any other value is a corrupted field
+// (and not false).
+func hexflag(x string) (bool, error) {
+	y, err := hexconv(x)
+	if err != nil {
+		return false, err
+	}
+	if y > 1 {
+		return false, fmt.Errorf("invalid flag: %s is neither 0 nor 1", x)
+	}
+	return y == 1, nil
 }
 
 func hexconv(x string) (uint64, error) {
